@@ -218,7 +218,12 @@ func (e *Engine) inputValue(st *State, t types.Type, name string) *Term {
 func (e *Engine) inputObjFacts(t types.Type, v *Term) { e.inputObjFactsIf(True, t, v) }
 
 func (e *Engine) inputObjFactsIf(g *Term, t types.Type, v *Term) {
-	lowOK := func(obj *Term) *Term { return Implies(g, Or(Eq(obj, IntT(0)), Ge(obj, e.inputLow))) }
+	lowOK := func(obj *Term) *Term {
+		if g.IsTrue() {
+			NoteNilOrGe(obj, e.inputLow)
+		}
+		return Implies(g, Or(Eq(obj, IntT(0)), Ge(obj, e.inputLow)))
+	}
 	switch e.tr.sortOf(t) {
 	case LocS:
 		e.axiom(lowOK(LocObj(v)))
